@@ -188,6 +188,8 @@ def Run.reduce (r : Run) (c : Case) (call : Call GInt) (resPtr : Int) : Run :=
     -- a result returned by value starts as `decay_type ret;` (dot.hpp:118): zero for std::complex, indeterminate for float
     let unwritten : Option GInt := if resPtr == EXT then (if c.cplx then some 0 else Option.none) else some (mem resPtr)
     let gv := Front.dotAsGemv g resPtr
+    -- core.hpp (when guarded): `if(n == 0) {*rp = R{}; return;}` before the xGEMV call
+    if Gen.coreDotGemvGuardsEmpty && g.n == 0 then store r 0 else
     let r := { r with lines := r.lines.push (callLine c.ty (.gemv gv)) }
     match gv.illegal with
     | some p => { r with lines := r.lines.push s!"xerbla {routineUpper c.ty (.gemv gv)} {p}", rval := some unwritten }
